@@ -479,6 +479,8 @@ class Ctx:
             "distinct_nontrivial": len(self.distinct),
             "rule": rule, "samples": self.samples or ["(none)"],
             "exhaustive": bool(self.exhaustive),
+            "exhaustive_scope": "the TLC stages (kind = tlc) explored their bounded universes completely; spec->code and code->spec stages cover "
+                                "what their own entries say (vectors / executed / histories)",
             "skipped_out_of_domain": self.skipped,
             "stages": self.stages,
             "drift": self.drift,
